@@ -8,7 +8,7 @@
 import AITB.Props.C03Lower
 import AITB.Props.C03Upper
 
-namespace AITB.POMDP
+namespace AITB.POMDP3
 open AITB.MDP
 
 /-! ### generic: loops return an iterate -/
@@ -430,4 +430,4 @@ theorem fib_upper (m : POMDP) (hv : Valid m) (horizon : Nat) (tol : Rat)
     exact hinv
   exact fib_ge_v m hv _ hV hsub _ hQ x hx
 
-end AITB.POMDP
+end AITB.POMDP3
